@@ -125,6 +125,28 @@ fn declaration_family(thorough: bool) -> Vec<(String, Files)> {
             v.push((format!("near-names among {} fields", n), one_file(&format!("{}W :: blob {{\n{}}}\nf :: fn w: W do\n    print(w.fld_zzzx)\nend\n{}", hdr, fields, start))));
         }
     }
+    // constraint lists of function types: every assignment of a constraint choice (none, known, unknown, wrong arity, two
+    // unknown ones) to three type variables of one signature, with and without a constrained variable the signature
+    // never mentions - zero to four independent errors per declaration
+    let cons: &[&str] = &["", "Num", "CmpEqu", "Blargh", "Sortable", "Num x", "Zork + Blargh"];
+    for k in 0..cons.len().pow(3) {
+        let picks = [cons[k % 7], cons[(k / 7) % 7], cons[k / 49]];
+        for unused in [false, true] {
+            let mut parts: Vec<String> = ["a", "b", "c"].iter().zip(picks.iter()).filter(|(_, c)| !c.is_empty()).map(|(v, c)| format!("{}: {}", v, c)).collect();
+            if unused {
+                parts.push("d: Quux".into());
+            }
+            if parts.is_empty() {
+                continue;
+            }
+            let sig = format!("fn<{}> *a, *b, *c -> *a", parts.join(", "));
+            v.push((format!("constraints {}", sig), one_file(&format!("{}pick: {} : external
+f :: fn do
+    print(pick(1, 2, 3))
+end
+{}", hdr, sig, start))));
+        }
+    }
     // repeated parameter names, repeated type variables, repeated case arms, repeated imports
     for (id, body) in [
         ("params a, a", "f :: fn a: int, a: str do\n    print(a)\nend\n"),
